@@ -237,6 +237,10 @@ def run_cases(ctx, n, tag):
             ax = rng.randint(0, pred.ndim)         # the same maps stored with an axis of length one
             pred, ref = np.expand_dims(pred, ax), np.expand_dims(ref, ax)
             ctx.count("singleton_axis")
+        # the same maps stored in any unsigned width (64-bit maps are the ones a widening `astype` need not copy)
+        dt = rng.choice([np.uint8, np.uint8, np.uint16, np.uint32, np.uint64, np.uint64])
+        pred, ref = pred.astype(dt), ref.astype(dt)
+        ctx.count("dtype." + np.dtype(dt).name)
         one_case(ctx, pred, ref, rand_cfg(ctx, pred, ref), f"{tag}{i}")
         if i % 3 == 0:
             # a small pool of fixed configurations whose evaluators live across cases of different dimensionality
